@@ -229,6 +229,13 @@ func crashpoints(seed int64, n, events int, out, storage, profile string) {
 	r := newRunner("crashpoints", seed, out, storage)
 	for i := 0; i < n; i++ {
 		s, rng := raftdrv.PlanSchedule(seed, i, events, storage, profile)
+		// every processReady sub-step is its own event in the base schedule, so that a crash is
+		// inserted at every sub-step boundary
+		fine := raftdrv.Profiles[s.Profile]
+		fine.PAll = 0
+		fine.Name = s.Profile + "-fine"
+		raftdrv.Profiles[fine.Name] = fine
+		s.Profile = fine.Name
 		var base []raftdrv.Event
 		r.observe(fmt.Sprintf("base-%d-%d", seed, i), i, s.Profile, s.Opt, false, func(dir string, sink func(*raftdrv.Record)) []raftdrv.Event {
 			base, _, _ = raftdrv.RunGenerated(s, rng, dir, sink)
@@ -279,4 +286,5 @@ func addStats(a *raftdrv.Stats, b raftdrv.Stats) {
 	a.Delivered += b.Delivered
 	a.Drops += b.Drops
 	a.StaleLeaderSteps += b.StaleLeaderSteps
+	a.EmptyRestarts += b.EmptyRestarts
 }
